@@ -854,6 +854,71 @@ def _run(res, tier, seed, proofs_ok):
     res.count('canon-undefined:edge-decks', len(undefined) - und_struct)
     meta = meta_all
 
+    # ---- 2c. the constructed cards handed to the implementation ----
+    n_impl = 48 if quick else 400
+    picked = [k for k, (_, o) in enumerate(meta)
+              if not getattr(o, 'edge', False) and o.result[0] == 'ok'][:n_impl]
+    sep = '=====DECK====='
+    n_checked = 0
+    for start in range(0, len(picked), 24):
+        part = picked[start:start + 24]
+        term = ' ++ '.join(f'(canon_dump {cases[k]} ++ "{sep}" ++ nl)'
+                           for k in part)
+        out, raw = common.coq_eval(HEADER + 'Import ListNotations.\n', term,
+                                   timeout=600)
+        if out is None:
+            res.violation('harness-error', 'canon_dump did not evaluate: '
+                          + raw[-300:], {'raw': raw[-1000:]},
+                          found_input=False)
+            break
+        body = out.strip()
+        body = body[1:body.rindex('"')].replace('""', '"')
+        dumps = body.split(sep + '\n')[:-1]
+        for k, dump in zip(part, dumps):
+            text, obs = meta[k]
+            cards = {}
+            for line in dump.split('\n'):
+                if line:
+                    key, mat, geom, opts = line.split('|')
+                    cards[int(key)] = f'{key} {mat}{geom} {opts}'.rstrip()
+            if set(cards) != set(obs.parsed):
+                res.count('canon-impl:undefined')
+                continue
+            head, _, tail = text.partition('\n\n')
+            title = head.split('\n')[0]
+            ctext = '\n'.join([title] + [gen.deckmod.wrap(cards[k2])
+                                         for k2 in obs.parsed]) + '\n\n' + tail
+            cobs = ImplDeck(ctext, obs.lattice_params)
+            n_checked += 1
+            diffs = [('*', 'setup', repr(cobs.setup_error))] \
+                if cobs.setup_error is not None else diff_cells(obs, cobs)
+            if diffs:
+                res.violation('impl-violation',
+                              '[canon-impl] the deck of explicit cards '
+                              'constructed by the model (every keyword once) '
+                              'is not parsed like the LIKE deck: '
+                              f'{diffs[:3]}',
+                              {'input': {'deck': text, 'expanded': ctext},
+                               'oracle': 'canon-impl'}, found_input=True)
+            elif n_checked <= (16 if quick else 120):
+                # ... and the written files are identical after the header
+                ca = impl.convert(text, keep_stdout=False)
+                cb = impl.convert(ctext, keep_stdout=False)
+                res.count('canon-impl:files')
+                if ca.ok != cb.ok or (ca.ok and strip_header(ca.text)
+                                      != strip_header(cb.text)):
+                    res.violation('impl-violation',
+                                  '[canon-impl] the written file of the deck '
+                                  'of model-constructed explicit cards differs '
+                                  f'from the LIKE deck\'s: {ca} / {cb}',
+                                  {'input': {'deck': text, 'expanded': ctext},
+                                   'oracle': 'canon-impl-file'},
+                                  found_input=True)
+    res.count('canon-impl:decks', n_checked)
+    res.obligation(f'sweep:canon-impl ({n_checked} decks: the implementation '
+                   'parses the deck of model-constructed explicit cards to the '
+                   'cells of the LIKE deck)', n_checked > 0, '')
+
     # ---- 3. split of LIKE cards ----
     uniq = {}
     for content, parts in split_cases:
